@@ -85,7 +85,7 @@ func (c12) Gen(r *world.Rng, tier string, n int) interface{} {
 		sc.Dense = r.Pick(0, 1, 10, 200, 3000)
 	}
 	if sc.MemKind != "map" {
-		sc.Dense = r.Pick(0, 10, 40, 80)
+		sc.Dense = r.Pick(0, 10, 40, 80, 100) // 100: nothing but prefix bytes
 	}
 	switch r.Intn(3) {
 	case 0:
@@ -128,7 +128,7 @@ func (c12) Gen(r *world.Rng, tier string, n int) interface{} {
 		if r.Chance(1, 3) {
 			ev.AtTick = uint64(r.Range(1, 3*sc.Steps))
 			if r.Chance(1, 4) {
-				ev.Do = []string{"reenter", "copystep"}[r.Intn(2)]
+				ev.Do = []string{"copystep", "copykeep"}[r.Intn(2)] // ("reenter" - a callback calling cpu.Step() on the running CPU - is supported by the executor but no longer generated: re-entrancy is not promised anywhere)
 			}
 		}
 		switch r.Intn(9) {
@@ -147,7 +147,7 @@ func (c12) Gen(r *world.Rng, tier string, n int) interface{} {
 		case 3:
 			ev.Data = hex.EncodeToString([]uint8{[]uint8{0xdd, 0xfd, 0xed, 0xcb}[r.Intn(4)]}) // prefix only
 		case 4:
-			ev.Data = hex.EncodeToString([]uint8{[]uint8{0x76, 0xd3, 0xdb, 0xed}[r.Intn(4)], r.Byte()}) // HALT / I/O in mode 0
+			ev.Data = hex.EncodeToString([]uint8{[]uint8{0x76, 0xd3, 0xdb, 0xed, 0x7e, 0x34, 0xe1}[r.Intn(7)], r.Byte()}) // HALT / I/O / memory access in mode 0
 		case 5:
 			ev.Data = hex.EncodeToString([]uint8{0xdd, 0xcb})
 		default:
@@ -233,6 +233,10 @@ func (e C12Ev) request() *z80.Interrupt {
 
 type c12Stop struct{ why string }
 
+// c12Watchdog is deliberately long: the only thing it must never do is fire on a healthy library
+// under a loaded machine.
+const c12Watchdog = 30 * time.Second
+
 // c12World is one instance of the hostile environment around a real CPU.
 type c12World struct {
 	cpu      *z80.CPU
@@ -244,6 +248,7 @@ type c12World struct {
 	hardStop uint64
 	stopWhy  string
 
+	kept       *z80.CPU
 	inCallback bool
 	reentered  bool // a nested Step ran inside the current one: its accesses are in the same log
 }
@@ -254,6 +259,10 @@ func c12Build(sc *C12Sc, env *Env) *c12World {
 	rr := world.NewRng(sc.MemSeed)
 	fill := func(b []uint8) {
 		for i := range b {
+			if sc.Dense >= 100 {
+				b[i] = []uint8{0xdd, 0xfd, 0xed, 0xcb}[rr.Intn(4)]
+				continue
+			}
 			if sc.Dense > 0 && rr.Intn(100) < sc.Dense {
 				b[i] = hostileBytes[rr.Intn(len(hostileBytes))]
 			} else {
@@ -291,7 +300,7 @@ func c12Build(sc *C12Sc, env *Env) *c12World {
 	w.cpu = cpu
 	onAccess := func() {
 		for i, e := range sc.Events {
-			if !w.fired[i] && e.AtTick != 0 && e.AtTick == w.tick {
+			if !w.fired[i] && e.AtTick != 0 && e.AtTick == w.tick && (!w.inCallback || e.Do == "") {
 				w.fired[i] = true
 				switch e.Do {
 				case "reenter":
@@ -302,14 +311,24 @@ func c12Build(sc *C12Sc, env *Env) *c12World {
 						env.Fire("callback-reenters-Step")
 					}
 					continue
+				case "copykeep":
+					// the callback snapshots the CPU value as it is at this instant - including whatever
+					// cpu.Memory is right now - and the host uses the snapshot after this Step has returned
+					if !sc.UseRun && !w.inCallback && w.kept == nil {
+						cp := *cpu
+						w.kept = &cp
+						env.Fire("callback-snapshots-cpu-for-later-use")
+					}
+					continue
 				case "copystep":
 					if !sc.UseRun && !w.inCallback {
-						w.inCallback = true
+						w.inCallback, w.reentered = true, true // the copy logs into the same process-global logger
 						cp := *cpu // struct copy taken while a Step (possibly an acceptance) is in progress
 						cp.Memory = make(z80.DumbMemory, 256)
 						cp.IO = nil
 						cp.Step()
 						cp.Step()
+						w.kept = &cp // ... and again after the Step in which it was taken has returned
 						w.inCallback = false
 						env.Fire("callback-copies-cpu-and-steps-the-copy")
 					}
@@ -367,15 +386,8 @@ func c12Build(sc *C12Sc, env *Env) *c12World {
 
 func (c12) Exec(sci interface{}, env *Env) (res *Violation) {
 	sc := sci.(*C12Sc)
-	risky := false
-	for _, e := range sc.Events {
-		risky = risky || e.Do != ""
-	}
-	if !risky || sc.UseRun {
-		return c12Exec(sc, env)
-	}
-	// callbacks that re-enter or copy the CPU can only go wrong by hanging (a lock held across the
-	// callback): watchdog in real time - a scenario of <= 64 Steps takes microseconds
+	// "no input makes the emulator hang": every scenario runs under a real-time watchdog (the property's
+	// own observe_at names one). A scenario of <= 400 Steps takes micro- to milliseconds.
 	done := make(chan *Violation, 1)
 	go func() {
 		defer func() {
@@ -388,8 +400,8 @@ func (c12) Exec(sci interface{}, env *Env) (res *Violation) {
 	select {
 	case v := <-done:
 		return v
-	case <-time.After(30 * time.Second):
-		return viol("hang", "a Step did not return within 30 s of real time in a world whose device callback re-enters / copies the CPU (memory %s/%d, io %s, IM=%d): Step must return normally", sc.MemKind, sc.MemLen, sc.IOKind, sc.IM)
+	case <-time.After(c12Watchdog):
+		return viol("hang", "Step/Run did not come back within %v of real time (memory %s/%d dense %d, io %s, IM=%d, use_run=%t, regs{%s}): Step must return normally, Run must return once its program halts", c12Watchdog, sc.MemKind, sc.MemLen, sc.Dense, sc.IOKind, sc.IM, sc.UseRun, world.FmtStates(sc.Regs.States()))
 	}
 }
 
@@ -460,7 +472,32 @@ func c12Exec(sc *C12Sc, env *Env) (res *Violation) {
 
 	pendingNext := uint16(0)
 	checkNext := false
+	useKept := func(step int) {
+		k := w.kept
+		if k == nil {
+			return
+		}
+		w.kept = nil
+		where = fmt.Sprintf("Step of a CPU value copied inside a device callback of Step %d, used after that Step returned", step)
+		w.inCallback = true // events stay quiet while the snapshot is exercised
+		k.Step()
+		k.Step()
+		k.Interrupt = nil
+		k.Step()
+		w.inCallback = false
+	}
+	defer func() {
+		if res == nil {
+			defer func() {
+				if r := recover(); r != nil {
+					res = viol("panic", "%s: %v", where, r)
+				}
+			}()
+			useKept(sc.Steps)
+		}
+	}()
 	for step := 0; step < sc.Steps; step++ {
+		useKept(step - 1) // (between two Steps of the main CPU: its history verdict is already in)
 		for i, e := range sc.Events {
 			if !w.fired[i] && e.AtTick == 0 && e.AtStep == step {
 				w.fired[i] = true
